@@ -431,6 +431,7 @@ def main():
 
     known = load_known()
     violations, known_hits, undecided = [], [], []
+    descriptive = []
     obligations = discharged = 0
     samples, functions_under_contract, trusted, backends, rewrites, assumptions = [], [], [], {}, {}, []
     substitutions = []
@@ -475,6 +476,11 @@ def main():
                     kf = k
             if kf:
                 known_hits.append((kf, f))
+            elif re.search(r'(^|/)doc/', f['obligation'].split('/', 1)[-1]):
+                # a DESCRIPTIVE label (`doc/...`): it records what the code does where the property demands nothing
+                # (e.g. which of two equally correct write modes an option selects).  A change there is reported as a
+                # note, never as a violation of the property.
+                descriptive.append((r, f))
             else:
                 violations.append((r, f))
         for u in r['undecided']:
@@ -508,6 +514,8 @@ def main():
             except Exception as e:  # noqa
                 note = ' [replay not run: %s]' % e
             print('KNOWN-FINDING: property=%s %s%s' % (prop, kf.get('what', kf['obligation']), note))
+    for r, f in descriptive:
+        print('NOTE: descriptive label no longer holds (not demanded by %s): %s' % (prop, f['obligation']))
     vio_by_unit = {}
     for r, f in violations:
         vio_by_unit.setdefault(r['unit'], []).append((r, f))
